@@ -1093,7 +1093,7 @@ pub fn run_plan(plan: &Plan) -> ExecResult {
         };
         if msg.contains("deadlock") {
             deadlock = true;
-            viols.insert(0, Viol { prop: "C03".into(), tag: "deadlock".into(), detail: format!("every task is blocked (lost wake-up or lock cycle): {msg}") });
+            viols.insert(0, Viol { prop: prop.into(), tag: "deadlock".into(), detail: format!("every task is blocked (lost wake-up, lock cycle, or a lock poisoned by a panic in another task): {msg}") });
         } else if (msg.contains("exceeded max_steps") || msg.contains("max_steps")) && matches!(plan.scenario, Scenario::Compact { .. }) {
             viols.insert(0, Viol { prop: "C13".into(), tag: "unbounded".into(), detail: format!("the compaction race did not finish within the step budget (compact() keeps committing without terminating): {msg}") });
         } else if msg.contains("exceeded max_steps") || msg.contains("max_steps") {
